@@ -2071,13 +2071,6 @@ static void get_user_data (interactive_t* ip, io_event_t* evt) {
            */
           ip->text[ip->text_end] = '\0';
           /*
-           * handle snooping - snooper does not see type-ahead. seems like
-           * that would be very inefficient, for little functional gain.
-           */
-          if (ip->snoop_by && !(ip->iflags & NOECHO))
-            receive_snoop (buf, ip->snoop_by->ob);
-
-          /*
            * set flag if new data completes command.
            */
           if (cmd_in_buf (ip))
@@ -2085,6 +2078,14 @@ static void get_user_data (interactive_t* ip, io_event_t* evt) {
               opt_trace (TT_COMM|3, "Command available in buffer for fd %d\n", ip->fd);
               ip->iflags |= CMD_IN_BUF;
             }
+          /*
+           * handle snooping - snooper does not see type-ahead. seems like
+           * that would be very inefficient, for little functional gain.
+           * This calls LPC code (receive_snoop() in the snooper), which may destruct or disconnect this user
+           * (ip is freed then) or raise an error: it must be the last thing done with ip here.
+           */
+          if (ip->snoop_by && !(ip->iflags & NOECHO))
+            receive_snoop (buf, ip->snoop_by->ob);
           break;
 
         case PORT_ASCII:
